@@ -148,11 +148,11 @@ type LinEnv struct {
 func NewLinEnv(fn *ssa.Function) *LinEnv {
 	return &LinEnv{Fn: fn, cache: map[ssa.Value]*Lin{}, lens: map[ssa.Value]*Lin{},
 		LenCalls: map[string]int{
-			M("internal/pool.GetBuf"):                                0,
-			"github.com/IrineSistiana/bytespool.Get":                 0,
-			M("internal/pool.CopyBuf"):                               -1,
-			M("internal/dnsmsg.copyBuf"):                             -1,
-			M("internal/upstream/transport.copyMsg"):                 -1,
+			M("internal/pool.GetBuf"):                0,
+			"github.com/IrineSistiana/bytespool.Get": 0,
+			M("internal/pool.CopyBuf"):               -1,
+			M("internal/dnsmsg.copyBuf"):             -1,
+			M("internal/upstream/transport.copyMsg"): -1,
 		}}
 }
 
